@@ -20,6 +20,15 @@
     (errorf "bad clause %p" cl)))
 
 (var pipes nil)
+(var procs nil)
+
+(defn- wait-child-gone
+  "real-time wait until the child is no longer running and janet's wait thread (if any) has posted"
+  [p]
+  (def pid (p :pid))
+  (var n 0)
+  (while (and (< n 2000) (or (verif/pid-running pid) (> (verif/live-threads) 0)))
+    (verif/real-sleep 1) (++ n)))
 
 (defn- make-thunk [op chans]
   (match op
@@ -33,11 +42,16 @@
     [:chunk pi n tmo] (fn [] (ev/chunk ((pipes pi) 0) n nil tmo))
     [:write pi data tmo] (fn [] (ev/write ((pipes pi) 1) data tmo) :written)
     [:wclose pi] (fn [] (ev/close ((pipes pi) 1)) :closed)
+    [:pwait k] (fn [] (os/proc-wait (procs k)))
+    [:write-bad pi tmo] (fn [] (ev/write ((pipes pi) 1) 12345 tmo))
     (errorf "bad op %p" op)))
 
 (defn run-history [item]
   (def chans (map |(ev/chan $) (item :caps)))
   (set pipes (seq [_ :range [0 (get item :npipes 0)]] (os/pipe)))
+  # children that exit with code 3 when the director writes a line to their stdin (:x = non-zero exit raises)
+  (set procs (seq [_ :range [0 (get item :nprocs 0)]]
+               (os/spawn ["/bin/sh" "-c" "read x; exit 3"] :px {:in :pipe})))
   (def world (d/new-world (item :nw)))
   (d/quiesce world)
   (def t0 (verif/now))
@@ -48,6 +62,7 @@
       [:start w op] (d/start world w opid (make-thunk op chans))
       [:cancel w tag] (ev/cancel ((world :workers) w) tag)
       [:tick s] (ev/sleep s)
+      [:pexit k] (do (ev/write ((procs k) :in) "\n") (wait-child-gone (procs k)))
       (errorf "bad action %p" act))
     (++ opid)
     (d/quiesce world)
@@ -59,6 +74,7 @@
                  (tuple ;(map |(ev/count $) chans))
                  (- (verif/now) t0)]))
   (each p pipes (each s p (protect (ev/close s))))
+  (each p procs (protect (ev/close (p :in))) (protect (os/proc-kill p)))
   (canon (tuple ;out)))
 
 (batch-run run-history)
